@@ -327,17 +327,26 @@ pub fn generate(_ctx: &mut Ctx, seed: u64, i: usize, mode: &str) -> Case {
         }));
     }
     for k in order { diff += &sections[k]; }
-    let with_globs = mode == "select" && rng.chance(1, 3) || mode == "drift" && rng.chance(1, 6);
+    let with_globs = mode == "select" && rng.chance(1, 3) || (mode == "drift" || mode == "flags") && rng.chance(1, 6);
     let walk: Vec<String> = files.iter().map(|f| f.0.clone()).collect();
     // path arguments may cover only some of the files: the others are walked but not allowed, and are still examined
     // through the diff (touched blocks only)
     let allow: Vec<String> = if with_globs && rng.chance(1, 2) { walk.iter().filter(|_| rng.chance(1, 2)).cloned().collect() } else { walk.clone() };
+    // mode `flags`: drift scenarios under a random subset of the validators given to --enable or --disable (the `affects`
+    // verdict needs the blocks of files that carry no rule of a selected validator: plain named targets)
+    let (mut enabled, mut disabled) = (vec![], vec![]);
+    if mode == "flags" {
+        let subset: Vec<String> = crate::gen_src::VALIDATORS.iter().filter(|_| rng.chance(1, 3)).map(|s| s.to_string()).collect();
+        if rng.chance(1, 2) { enabled = subset } else { disabled = subset }
+    }
     Case {
         files,
         allow: if with_globs { allow.clone() } else { vec![] },
         walk: if with_globs { walk } else { vec![] },
         scan: with_globs,
         diff: Some(diff),
+        enabled,
+        disabled,
         patterns: vec!["^[a-z0-9]+$".to_string()],
         meta: json!({"gen": "diff", "mode": mode, "i": i, "u": u, "files": meta_files, "globs": with_globs, "glob_files": if with_globs { json!(allow) } else { Value::Null }}),
         ..Default::default()
